@@ -125,6 +125,14 @@ def run_program(ctx, rnd, ast, is_handle, shape, n_sched, where):
             njobs = max(njobs, len(c.submits))
             if c.waited_on_limits:
                 ctx.count("runs_in_which_a_job_waited_for_limits")
+            # thousands of runs per process: release the in-memory database and the job graph of this run
+            try:
+                s.backend.session.close()
+                s.backend.engine.dispose()
+            except Exception:
+                pass
+            c.jobs.clear()
+            del out, c, s
     ctx.ev()
     ctx.count("distinct_schedule_signatures", len(sigs))
     if njobs >= 3 and len(sigs) >= 2:
